@@ -990,6 +990,9 @@ def c19_check(prop, tier, seed, replay):
     cfgs = orch.gen_configs(rnd, tier)
     per = 4 if tier == "quick" else 12
     work = [(i, c, [orch.gen_steps(rnd, c) for _ in range(per)]) for i, c in enumerate(cfgs)]
+    for _i, c, scs in work:
+        if c.get("dynamic") and c["peers"]:
+            scs[0] = orch.grow_steps(c)      # deterministic: the cluster grows while the node is a candidate
     results = vlib.parallel(run_config, work, nproc=8)
     nev = starts = refused = 0
     for i, r in enumerate(results):
